@@ -5,6 +5,7 @@ import (
 	"context"
 	"crypto/sha256"
 	"encoding/binary"
+	"errors"
 	"fmt"
 	"sort"
 	"strings"
@@ -26,7 +27,7 @@ import (
 
 func init() {
 	Register(&Scenario{Prop: "C20", Name: "pubsubcoreapi-scripted", Run: scenC20CoreAPI, Weight: 1,
-		Rule: "the real pubsubcoreapi adapter over a scripted PubSub API: a drawn sequence of 3-12 membership snapshots over 5 peers (without self) returned on successive polls of the virtual clock, and a drawn interleaving of 3-20 messages from self and from remote peers with payload sizes from {0,1,17,4 KiB,128 KiB,1 MiB}; the consumer of both channels is paced by the kernel (including stalls beyond the 32/128-slot buffers); oracle: per peer the join/leave events are exactly the set differences of consecutive snapshots, in order; no message from self is delivered; every remote payload is delivered once, byte-identical, in order; non-trivial = >=2 membership changes and >=2 remote and >=1 self message"})
+		Rule: "the real pubsubcoreapi adapter over a scripted PubSub API: a drawn sequence of 3-12 membership snapshots over 5 peers (without self) returned on successive polls of the virtual clock, and a drawn interleaving of 3-20 messages from self and from remote peers with payload sizes from {0,1,17,4 KiB,128 KiB,1 MiB}; the consumer of both channels is paced by the kernel (including stalls beyond the 32/128-slot buffers); oracle: per peer the join/leave events are exactly the set differences of consecutive snapshots, in order; no message from self is delivered; every remote payload is delivered once, byte-identical, in order; non-trivial = >=2 membership changes and >=2 remote and >=1 self message; in one run of three one membership poll fails (the watcher may stop or carry on, what it reported must remain a beginning of what the snapshots imply)"})
 	Register(&Scenario{Prop: "C20", Name: "oneonone-pair", Run: scenC20OneOnOne, Weight: 1,
 		Rule: "two real oneonone adapters over the simulated pubsub (delivery delayed and interleaved by the kernel, no loss); both sides Connect, then 2-12 Sends from both sides interleaved with kernel steps, payload sizes from {0,1,100,64 KiB}; oracle: both ends subscribed to one and the same channel topic; each side's adapter emits exactly the payloads the other side sent (multiset, byte-identical), attributed to the other peer, and none of its own; non-trivial = both sides sent >=1 payload"})
 	Register(&Scenario{Prop: "C20", Name: "directchannel-streams", Run: scenC20Direct, Weight: 1,
@@ -49,12 +50,18 @@ type scriptedPS struct {
 	q         []*Msg
 	notify    chan struct{}
 	published [][]byte
+	failAt    int // Peers fails once, at this call (0 = never)
+	calls     int
 }
 
 func (p *scriptedPS) Ls(context.Context) ([]string, error) { return nil, nil }
 func (p *scriptedPS) Peers(context.Context, ...options.PubSubPeersOption) ([]peer.ID, error) {
 	p.mu.Lock()
 	defer p.mu.Unlock()
+	p.calls++
+	if p.failAt > 0 && p.calls == p.failAt {
+		return nil, errors.New("sim: membership poll failed")
+	}
 	i := p.poll
 	if i >= len(p.snapshots) {
 		i = len(p.snapshots) - 1
@@ -124,6 +131,11 @@ func scenC20CoreAPI(k *K) {
 			_ = j
 		}
 		ps.snapshots = append(ps.snapshots, s)
+	}
+	if k.C.Chance(1, 3) {
+		// one membership poll fails (the node's API is briefly unavailable)
+		ps.failAt = k.C.Range(2, nsnap+1)
+		k.W.Stat("membership-poll-failed")
 	}
 	ctx, cancel := context.WithCancel(context.Background())
 	k.cleanups = append(k.cleanups, cancel)
@@ -201,7 +213,7 @@ func scenC20CoreAPI(k *K) {
 		}
 	}
 	stall := 0
-	for step := 0; step < 400 && (sent < nmsg || ps.poll <= nsnap+1); step++ {
+	for step := 0; step < 400 && (sent < nmsg || (ps.poll <= nsnap+1 && (ps.failAt == 0 || step < 120))); step++ {
 		k.Wait()
 		switch k.C.Weighted([]int{4, 3, 3, 2, 1}) {
 		case 0:
@@ -251,8 +263,13 @@ func scenC20CoreAPI(k *K) {
 		drainMsgs(1000)
 	}
 	for _, o := range others {
+		// after a failed poll the watcher may stop or carry on from what it knew: what it
+		// reported must still be a beginning of what the snapshots imply
+		if ps.failAt > 0 && len(got[o]) <= len(expected[o]) && EqStrs(got[o], expected[o][:len(got[o])]) {
+			continue
+		}
 		if !EqStrs(got[o], expected[o]) {
-			k.Failf("C20/coreapi/membership", "peer %d: snapshots imply events %v, the adapter reported %v", indexOfPeer(others, o)+1, expected[o], got[o])
+			k.Failf("C20/coreapi/membership", "peer %d: snapshots imply events %v, the adapter reported %v (failed poll: call %d)", indexOfPeer(others, o)+1, expected[o], got[o], ps.failAt)
 		}
 	}
 	if len(gotMsgs) != len(wantMsgs) {
